@@ -39,6 +39,23 @@ class Env:
                 fields.append(mm.group(1))
         return fields
 
+    def const_value(self, rel, name, _depth=0):
+        """integer value of `const NAME: ty = <expr>;` in a source file (expr over literals and other consts of that file)"""
+        txt = strip_comments(self.read(rel))
+        m = re.search(r"const\s+" + re.escape(name) + r"\s*:\s*[\w:]+\s*=\s*([^;]+);", txt)
+        if not m or _depth > 6:
+            raise Unsupported(f"const {name} not found in {rel}")
+        expr = re.sub(r"\bas\s+\w+", "", m.group(1))
+        expr = re.sub(r"(\d)_(?=\d)", r"\1", expr)
+        expr = re.sub(r"(\d)(?:_?(?:u|i)(?:8|16|32|64|size))\b", r"\1", expr)
+
+        def repl(mm):
+            return str(self.const_value(rel, mm.group(0), _depth + 1))
+        expr = re.sub(r"\b[A-Z][A-Z0-9_]+\b", repl, expr)
+        if not re.match(r"^[\d\s+*/()<>-]+$", expr):
+            raise Unsupported(f"const {name}: expression not understood: {expr}")
+        return int(eval(expr.replace("/", "//"), {"__builtins__": {}}))
+
     def enum_variants(self, rel, name):
         txt = strip_comments(self.read(rel))
         m = re.search(r"enum\s+" + re.escape(name) + r"\s*(?:<[^>{]*>)?\s*\{", txt)
@@ -1781,6 +1798,102 @@ def c07_before_write(env, ob):
             return None
         agg = merge(agg, trace_obligation(env, ob, ctx, res, bad, "a validator returns Ok without running NOT NULL and UNIQUE checks", cuts_ok=True))
     return agg
+
+
+def _range_models(lo_hi):
+    """models for RangeInclusive<u64>: new / into_iter / next (next yields ONE arbitrary element of the range, or None)"""
+    def m_new(ex, path, frame, callee, args, dest_ty):
+        if len(args) != 2 or not all(isinstance(a, Leaf) for a in args):
+            return NotImplemented
+        a = Agg(ex.ctx, None, dest_ty)
+        a.fields["start"], a.fields["end"] = Cell(args[0]), Cell(args[1])
+        lo_hi.append((args[0].term, args[1].term))
+        return a
+
+    def m_into(ex, path, frame, callee, args, dest_ty):
+        return args[0]
+
+    def m_next(ex, path, frame, callee, args, dest_ty):
+        r = args[0].cell.val if isinstance(args[0], Ref) else args[0]
+        if not isinstance(r, Agg) or "start" not in r.fields:
+            return NotImplemented
+        lo, hi = r.fields["start"].val.term, r.fields["end"].val.term
+        out = Agg(ex.ctx, ex.ctx.fresh("range_next"), dest_ty)
+        d = out.get_disc().term
+        x = out.variant_cell("Some").val.field_cell("0", "u64").val.term
+        path.pc.append(f"(=> (= {d} {bvconst(1, 64)}) (and (bvule {lo} {x}) (bvule {x} {hi})))")
+        path.pc.append(f"(or (= {d} {bvconst(0, 64)}) (= {d} {bvconst(1, 64)}))")
+        return out
+    return {r"RangeInclusive::<u64>::new$": m_new, r"RangeInclusive<u64> as IntoIterator>::into_iter$": m_into,
+            r"RangeInclusive<u64> as Iterator>::next$": m_next}
+
+
+@obligation(id="C13.bitmap_clear_in_bounds", also="C09", funcs="PageZeroHeader::clear_aborted_up_to",
+            bounds="every horizon (u64) and every id the clearing loop can visit (the loop body is executed for one arbitrary "
+                   "element of its range); MAX_TRACKED_ABORTED_TXS / ABORTED_BITMAP_SIZE read from the source",
+            native="c13_vacuum_with_large_horizon")
+def c13_bitmap_clear_bounds(env, ob):
+    """VACUUM clears the aborted bitmap up to the last committed id; whatever that id is (also >= the 8192 ids the bitmap
+    tracks) no iteration may index outside the bitmap or otherwise panic - a panic here kills the VACUUM worker after the
+    trees were rewritten but before commit."""
+    lo_hi = []
+    ctx, f, args, res = explore(env, "storage/page.rs", "clear_aborted_up_to", sig=r"PageZeroHeader", loop_bound=1, models=_range_models(lo_hi))
+    consts = [n for n in ctx.decls if "MAX_TRACKED_ABORTED_TXS" in n]
+    val = env.const_value("storage/page.rs", "MAX_TRACKED_ABORTED_TXS")
+    ties = ["(= %s %s)" % (n, bvconst(val, int(re.search(r"(\d+)", ctx.decls[n]).group(1)))) for n in consts]
+    if not lo_hi:
+        raise Unsupported("clearing loop is not a RangeInclusive<u64> any more")
+    pan = [p for p, rv in res if p.panics]
+    good = [p for p, rv in res if not p.panics and not p.cut]
+    qs = [conj(p.pc + ties) for p in pan] + [conj(good[0].pc + ties)] if good else []
+    chk = env.check(ctx, qs) if qs else []
+    kw = dict(paths=len(res), queries=len(qs))
+    if not good or chk[-1]["verdict"] != "sat":
+        return result(ob, "inconclusive", reason="vacuity: no feasible normal path", **kw)
+    bad = [p.panics for p, c in zip(pan, chk) if c["verdict"] == "sat"]
+    odd = [c["verdict"] for c in chk[:-1] if c["verdict"] not in ("sat", "unsat")]
+    if bad:
+        return result(ob, "violated", failed=["clearing_loop_can_panic:" + re.sub(r"[^A-Za-z0-9]+", "_", bad[0])[:60]], cex={"panics": bad[:3], "range": lo_hi[:1]}, **kw)
+    if odd:
+        return result(ob, "inconclusive", reason=";".join(odd), **kw)
+    return result(ob, "discharged", **kw)
+
+
+@obligation(id="C13.vacuum_covers_every_relation", funcs="Catalog::vacuum,Catalog::vacuum::{closure#0}",
+            bounds="every path of the per-catalog-row closure and of Catalog::vacuum (loops unrolled once); callees uninterpreted",
+            native="c13_vacuum_cleans_indexes_too")
+def c13_vacuum_covers(env, ob):
+    """VACUUM forgets which transactions aborted (the bitmap is cleared afterwards), so every tree that can hold their
+    tuples must be cleaned first: every relation visible in the catalog - tables AND indexes - is queued, and the meta
+    table and the meta index are vacuumed as well."""
+    ctx, f, args, res = explore(env, "schema/catalog.rs", "vacuum::{closure#0}", loop_bound=1)
+
+    def bad(path, rv):
+        if path.panics or rv is None:
+            return None
+        rel = _evs(path, r"Relation::from_meta_table_row$")
+        if not rel:
+            return None
+        if not _evs(path, r"Vec::<.*>::push$"):
+            return ("visible_relation_not_queued_for_vacuum", ret_is_ok(rv))
+        return None
+    a = trace_obligation(env, ob, ctx, res, bad, "a relation read from the catalog is skipped by VACUUM")
+    ctx2, f2, args2, res2 = explore(env, "schema/catalog.rs", "vacuum", sig=r"Catalog", loop_bound=1)
+
+    def bad2(path, rv):
+        if path.panics or rv is None:
+            return None
+        vb = _evs(path, r"vacuum_btree$")
+        emptyret = not _evs(path, r"iter_forward$")
+        if emptyret:
+            return None                                   # empty catalog: early return
+        looped = [e for e in path.events if re.search(r"IntoIter<\(.*\)> as Iterator>::next$", e["callee"])]
+        some = [e for e in looped if f"(= {e['ret'].get_disc().term} {bvconst(1, 64)})" in path.pc]
+        if len(vb) < 2 + len(some):
+            return ("queued_relation_or_catalog_tree_not_vacuumed", ret_is_ok(rv))
+        return None
+    b = trace_obligation(env, ob, ctx2, res2, bad2, "Catalog::vacuum skips a queued relation or a catalog tree", cuts_ok=True)
+    return merge(a, b)
 
 
 # ---------------------------------------------------------------------------------------------------------------------
